@@ -26,9 +26,9 @@ class Validator:
     def __init__(self):
         self.events = []
 
-    def add(self, act, c=None, b=None, d=None, cls="ok", tag=None):
+    def add(self, act, c=None, b=None, d=None, cls="ok", tag=None, dv=None):
         ev = {"id": len(self.events) + 1, "act": act, "c": c or DUMMY, "b": b or DUMMY, "d": d or DUMMY,
-              "cls": cls}
+              "cls": cls, "dv": dv or []}
         self.events.append((ev, tag))
         return ev["id"]
 
